@@ -485,8 +485,68 @@ def run_gate(ctx: Ctx, env: Env, use_model: bool, wide: bool):
 
 
 # ---- part B: histories -------------------------------------------------------------------------------------------------
-HOP_IPS = ["10.0.0.1", "10.0.0.2", "10.0.0.3", "fd00::5"]
+HOP_IPS = ["10.0.0.1", "1.2.3.4", "27.0.0.1", "10.0.0.3", "fd00::5", "fd0::5"]
 FOREIGN_IPS = ["10.0.0.9", "172.16.3.4", "10.0.0.10", "fd00::6", "10.0.0.11"]
+
+
+def host_value(ip: str):
+    """the address an IP text denotes (IPv4-mapped IPv6 = that IPv4 host); None when the text is no IP address"""
+    import ipaddress
+    try:
+        a = ipaddress.ip_address(ip)
+    except ValueError:
+        return None
+    if a.version == 6 and a.ipv4_mapped is not None:
+        return a.ipv4_mapped
+    return a
+
+
+def same_host(a: str, b: str) -> bool:
+    va, vb = host_value(a), host_value(b)
+    return a == b or (va is not None and va == vb)
+
+
+def near_misses(ip: str) -> list[tuple[str, str]]:
+    """(relation, address) pairs: addresses that are NOT the hop's but are close to it in text or in value, plus other
+    spellings of the same address.  All are valid address texts (what a socket API can report)."""
+    import ipaddress
+    out = []
+    a = ipaddress.ip_address(ip)
+
+    def add(rel, txt):
+        try:
+            ipaddress.ip_address(txt)
+        except ValueError:
+            return
+        if txt != ip and (rel, txt) not in out:
+            out.append((rel, txt))
+    if a.version == 4:
+        o = ip.split(".")
+        for c in "12":
+            add("text:hop-is-suffix", c + ip)                       # 1.2.3.4 -> 11.2.3.4, 27.0.0.1 -> 127.0.0.1
+        for c in "015":
+            add("text:hop-is-prefix", ip + c)                       # 1.2.3.4 -> 1.2.3.40
+        add("text:suffix-of-hop", ip[1:])                           # 10.0.0.1 -> 0.0.0.1
+        add("text:prefix-of-hop", ip[:-1]) if len(o[3]) > 1 else None
+        add("value:last-octet+1", ".".join(o[:3] + [str((int(o[3]) + 1) % 256)]))
+        add("value:first-octet+1", ".".join([str((int(o[0]) + 1) % 256)] + o[1:]))
+        add("value:reversed", ".".join(reversed(o)))
+        add("value:+256", str(ipaddress.ip_address((int(a) + 256) % 2 ** 32)))
+        add("same-host:ipv4-mapped", "::ffff:" + ip)
+        add("text:mapped-near-miss", "::ffff:1" + ip)
+        add("text:v6-suffix", "::" + ip)                            # IPv4-compatible form, a different address
+    else:
+        add("text:hop-is-suffix", "1" + ip)                         # fd0::5 -> 1fd0::5
+        add("text:hop-is-suffix", "a" + ip)
+        add("text:hop-is-prefix", ip + "5")                         # fd00::5 -> fd00::55
+        add("text:hop-is-prefix", ip + "0")
+        add("text:suffix-of-hop", ip[1:])                           # fd00::5 -> d00::5
+        add("value:+1", str(ipaddress.ip_address(int(a) + 1)))
+        add("value:high-bit", str(ipaddress.ip_address(int(a) ^ (1 << 120))))
+        add("same-host:uppercase", ip.upper())
+        add("same-host:exploded", a.exploded)
+        add("text:mapped-of-low-bits", "::ffff:0.0.0." + str(int(a) % 256))
+    return out
 
 
 def payload_pool(rng, pfx):
@@ -576,7 +636,11 @@ def draw_event(rng, env: Env, h, pend_gates, pend_dns, open_fams):
         cid = c["cid"] if rng.random() < 0.8 else cid
         src = (c["ip"], rng.choice([c["port"], c["port"], 999]))
     else:
-        src = (rng.choice(FOREIGN_IPS + HOP_IPS), rng.choice([5000, 1]))
+        if rng.random() < 0.6:
+            # near-miss of this socket's hop address (text prefix/suffix/substring, neighbouring value, other spelling)
+            src = (rng.choice(near_misses(s["ip"]))[1], rng.choice([s["port"], s["port"], 1]))
+        else:
+            src = (rng.choice(FOREIGN_IPS + HOP_IPS), rng.choice([5000, 1]))
     r = rng.random()
     if r < 0.55:
         dest = ("4", rng.choice(["93.184.216.34", "8.8.4.4", "0.0.0.0", "0.0.0.1"]), rng.choice([6881, 53, 0, 65535]))
@@ -659,7 +723,10 @@ async def run_history(ctx: Ctx, env: Env, h, fixed_events=None):
             line = f"data {hx(e['src'][0].encode())} {e['src'][1]} {cid} {dest[0]} {hx(dest[1].encode())} {dest[2]} {hx(p)}"
             ctx.count("B:dest:" + ("null" if (dest[1], dest[2]) == NULL else {"4": "ipv4", "6": "ipv6", "d": "domain"}[dest[0]]))
             ctx.count("B:payload:" + e.get("pkind", "?"))
-            ctx.count("B:src:" + ("hop-ip" if e["src"][0] == hopip.get(cid) else "foreign-ip"))
+            hop = hopip.get(cid)
+            rel = "hop-ip" if e["src"][0] == hop else "no-such-socket" if hop is None else \
+                dict((t, r) for r, t in near_misses(hop)).get(e["src"][0], "foreign:unrelated")
+            ctx.count("B:src:" + rel + (":enabled-before" if hop is not None and enabled_before.get(cid) else ""))
         elif e["ev"] == "open":
             g = [g for g in env.gates if not g["fut"].done() and g["owner"] == cid and g["fam"] == e["fam"]]
             if g:
@@ -736,7 +803,9 @@ async def run_history(ctx: Ctx, env: Env, h, fixed_events=None):
         opened = [c for c, es in sockobj.items() if es.enabled and not enabled_before[c]]
         opened += [g["owner"] for g in env.gates[n_gates:] if g["fam"] == 4]
         for c in set(opened):
-            ok = e["ev"] == "data" and c == cid and e["src"][0] == hopip.get(c)
+            # judged by the ADDRESS the text denotes, so another spelling of the hop's own address is not a violation
+            # (it is still a model disagreement: the model mirrors the code's exact text comparison)
+            ok = e["ev"] == "data" and c == cid and same_host(e["src"][0], hopip.get(c))
             if not ok:
                 ctx.oracle_fail("TunnelCommunity.exit_data:socket-opened-by-foreign-ip",
                                 f"event {i} ({e['ev']} from {e.get('src')}): exit socket {c} (previous hop {hopip.get(c)}) started opening its outside transports",
@@ -790,12 +859,48 @@ def run_paths(ctx: Ctx, env: Env, n_hist: int, use_model: bool):
     env.loop.run_until_complete(env.clear())
 
 
+def run_opening_grid(ctx: Ctx, env: Env, use_model: bool):
+    """exhaustive small scope for "who may open the socket": every hop address x (its own address on two ports, every
+    near-miss, unrelated addresses) as the source of the FIRST data cell, then both transports open."""
+    all_lines, all_impl, owners = [], [], []
+    payload = b"d1:ad2:id20:abcdefghij0123456789e"
+    for hop in HOP_IPS:
+        srcs = [("hop-ip", hop, 5000), ("hop-ip:other-port", hop, 999)]
+        srcs += [(rel, ip, port) for rel, ip in near_misses(hop) for port in (5000,)]
+        srcs += [("foreign:unrelated", ip, 5000) for ip in FOREIGN_IPS[:2]]
+        for rel, ip, port in srcs:
+            h = {"flags": [env.F_RELAY, env.F_BT], "socks": [{"cid": 77, "ip": hop, "port": 5000}], "circs": [],
+                 "tunnel_ep": False, "style": "grid", "n": 5, "events": []}
+            evs = [{"ev": "data", "src": [ip, port], "cid": 77, "dest": ["4", "93.184.216.34", 6881], "data": payload.hex(),
+                    "pkind": "dht"},
+                   {"ev": "open", "cid": 77, "fam": 4}, {"ev": "open", "cid": 77, "fam": 6},
+                   {"ev": "data", "src": [ip, port], "cid": 77, "dest": ["6", "2001:db8::1", 6881], "data": payload.hex(),
+                    "pkind": "dht"}]
+            lines, impl, stats = env.loop.run_until_complete(run_history(ctx, env, h, fixed_events=evs))
+            ctx.count("G:first-cell-from:" + rel)
+            ctx.count("G:emissions", stats["emit"])
+            ctx.case(("G", hop, ip, port), nontrivial=True, n=len(lines) - 1)
+            all_lines += lines
+            all_impl += impl
+            owners += [h] * len(lines)
+    if use_model:
+        replies = ctx.driver().batch(all_lines)
+        bad = set()
+        for ln, rep, im, h in zip(all_lines, replies, all_impl, owners):
+            if rep != im and id(h) not in bad:
+                bad.add(id(h))
+                ctx.disagree(f"opening grid, hop {h['socks'][0]['ip']}, step `{ln[:160]}`: model `{rep[:300]}` != implementation `{im[:300]}`",
+                             {"part": "B", "line": ln, "model": rep, "impl": im, "history": h})
+    env.loop.run_until_complete(env.clear())
+
+
 # ---- entry points --------------------------------------------------------------------------------------------------------
 def run(ctx: Ctx):
     env = Env()
     try:
         if ctx.replay_input is not None:
             return replay(ctx, env, ctx.replay_input)
+        run_opening_grid(ctx, env, ctx.model_ok)
         run_gate(ctx, env, ctx.model_ok, wide=ctx.thorough())
         run_paths(ctx, env, ctx.scale(400, 20000), ctx.model_ok)
     finally:
@@ -805,6 +910,7 @@ def run(ctx: Ctx):
 def search(ctx: Ctx, reason: str):
     env = Env()
     try:
+        run_opening_grid(ctx, env, False)
         run_gate(ctx, env, False, wide=True)
         run_paths(ctx, env, 1500, False)
     finally:
